@@ -1,0 +1,23 @@
+//go:build verif
+
+package pilosa
+
+// VerifExecGate, when set (before any query runs), is called by the executor's
+// map/reduce machinery at two points, outside any lock:
+//
+//	"worker"  in worker(), after a shard's map function returned and before the
+//	          shard result is sent to mapperLocal's channel; kv = shard (uint64)
+//	"mapper"  in the per-node goroutine started by executor.mapper, after the
+//	          node's result is known (local reduce finished / remote response
+//	          received) and before it is sent to mapReduce's channel;
+//	          kv = id of the executing node, id of the node that answered
+//
+// The hook may block there to decide the order in which shard results and node
+// responses arrive at the reducers (property C17).
+var VerifExecGate func(point string, kv ...interface{})
+
+func verifExecGate(point string, kv ...interface{}) {
+	if h := VerifExecGate; h != nil {
+		h(point, kv...)
+	}
+}
